@@ -1,9 +1,526 @@
 package props
 
-import "verif/internal/core"
+import (
+	"bufio"
+	"fmt"
+	"net"
+	"net/http"
+	"path/filepath"
+	"regexp"
+	"strings"
+	"sync"
+	"syscall"
+	"time"
 
-// C20 — stub, replaced by the real check.
+	"verif/internal/core"
+	"verif/internal/fakes"
+	"verif/internal/rawhttp"
+)
+
+type c20HealthCase struct {
+	Name      string `json:"name"`
+	Threshold int    `json:"threshold"`
+	Kind      string `json:"failure_kind"` // non200 | closed
+	Script    string `json:"script"`       // P/F per health request; afterwards F forever
+}
+
+type c20HealthEvent struct {
+	Idx  int
+	Pass bool
+	Sent time.Time
+}
+
+// c20Health runs one health history and applies the ordering oracles.
+func c20Health(r *core.Run, agentBin string, md *fakes.Metadata, c c20HealthCase) {
+	var mu sync.Mutex
+	var events []c20HealthEvent
+	idx := 0
+	backend, err := rawhttp.NewServer(func(req *rawhttp.Message, reqErr error, conn net.Conn, br *bufio.Reader) bool {
+		if reqErr != nil {
+			return false
+		}
+		if !strings.HasPrefix(req.Target, "/healthz") {
+			var w rawhttp.Builder
+			w.Line("HTTP/1.1 200 OK").Field("Content-Length", "2").End()
+			w.WriteString("ok")
+			conn.Write(w.Bytes())
+			return true
+		}
+		mu.Lock()
+		i := idx
+		idx++
+		pass := i < len(c.Script) && c.Script[i] == 'P'
+		mu.Unlock()
+		keep := true
+		if pass {
+			var w rawhttp.Builder
+			w.Line("HTTP/1.1 200 OK").Field("Content-Length", "2").End()
+			w.WriteString("ok")
+			conn.Write(w.Bytes())
+		} else if c.Kind == "non200" {
+			var w rawhttp.Builder
+			w.Line("HTTP/1.1 503 Unhealthy").Field("Content-Length", "0").End()
+			conn.Write(w.Bytes())
+		} else {
+			keep = false // close without answering
+		}
+		mu.Lock()
+		events = append(events, c20HealthEvent{i, pass, time.Now()})
+		mu.Unlock()
+		return keep
+	})
+	if err != nil {
+		r.Broken(err.Error())
+		return
+	}
+	defer backend.Close()
+	px, err := fakes.NewProxy()
+	if err != nil {
+		r.Broken(err.Error())
+		return
+	}
+	defer px.Close()
+	px.ListWait = 100 * time.Millisecond
+	var firstProxyReq time.Time
+	px.OnList = func(w http.ResponseWriter, req *http.Request) bool {
+		mu.Lock()
+		if firstProxyReq.IsZero() {
+			firstProxyReq = time.Now()
+		}
+		mu.Unlock()
+		return false
+	}
+	px.OnFetch = func(id string, w http.ResponseWriter, req *http.Request) bool {
+		mu.Lock()
+		if firstProxyReq.IsZero() {
+			firstProxyReq = time.Now()
+		}
+		mu.Unlock()
+		return false
+	}
+	agent, err := startAgent(r, agentBin, "agent-"+c.Name, md, px.URL(), backend.Addr(), "b20-"+c.Name,
+		"--health-check-path=/healthz", "--health-check-interval-seconds=1", fmt.Sprintf("--health-check-unhealthy-threshold=%d", c.Threshold))
+	if err != nil {
+		r.Broken(err.Error())
+		return
+	}
+	defer agent.Kill()
+	// the history needs len(script)+threshold health checks at 1 s each; T = 10 s on top
+	total := time.Duration(len(c.Script)+c.Threshold+2)*time.Second + 12*time.Second
+	var exitAt time.Time
+	select {
+	case <-agent.Done():
+		exitAt = time.Now()
+	case <-time.After(total):
+	}
+	mu.Lock()
+	evs := append([]c20HealthEvent(nil), events...)
+	first := firstProxyReq
+	mu.Unlock()
+	cls := fmt.Sprintf("health|t=%d|%s|lateP=%d|resets=%d", c.Threshold, c.Kind, strings.Index(c.Script, "P"), strings.Count(c.Script, "P")-1)
+	r.Case(cls)
+	r.Add("health_replies_served", len(evs))
+	// (1) start-up gate
+	var firstPass time.Time
+	for _, e := range evs {
+		if e.Pass {
+			firstPass = e.Sent
+			break
+		}
+	}
+	if !first.IsZero() && (firstPass.IsZero() || first.Before(firstPass)) {
+		r.Violate("C20:polled-before-healthy", fmt.Sprintf("history %s (t=%d, %s): the proxy received a request %v before the first passing health reply was sent", c.Script, c.Threshold, c.Kind, firstPass.Sub(first)), c, nil)
+	}
+	if first.IsZero() && !firstPass.IsZero() && exitAt.IsZero() {
+		r.Violate("C20:never-polled-after-healthy", fmt.Sprintf("history %s: a health check passed but the proxy never received a request", c.Script), c, nil)
+	}
+	// (2)/(3) exit only after t consecutive failures, and then within T
+	trailing := func(until time.Time) (n int, tth time.Time) {
+		cnt := 0
+		var when time.Time
+		for _, e := range evs {
+			if !until.IsZero() && e.Sent.After(until) {
+				break
+			}
+			if e.Pass {
+				cnt = 0
+				when = time.Time{}
+			} else {
+				cnt++
+				if cnt == c.Threshold {
+					when = e.Sent
+				}
+			}
+		}
+		return cnt, when
+	}
+	if !exitAt.IsZero() {
+		n, _ := trailing(exitAt)
+		seenPass := !firstPass.IsZero() && firstPass.Before(exitAt)
+		if !seenPass {
+			r.Violate("C20:exited-before-first-healthy", fmt.Sprintf("history %s: the agent exited although no health check had passed yet (start-up should keep waiting): %s", c.Script, core.Trunc(tail(agent.Log(), 300), 300)), c, nil)
+		} else if n < c.Threshold {
+			r.Violate("C20:exited-before-threshold", fmt.Sprintf("history %s (t=%d, %s): the agent exited after only %d consecutive failing health replies: %s", c.Script, c.Threshold, c.Kind, n, core.Trunc(tail(agent.Log(), 300), 300)), c, evs)
+		}
+	} else {
+		_, tth := trailing(time.Time{})
+		if !tth.IsZero() && time.Since(tth) > 10*time.Second {
+			r.Violate("C20:no-exit-when-unhealthy", fmt.Sprintf("history %s (t=%d, %s): %d consecutive health checks failed %v ago but the agent is still running", c.Script, c.Threshold, c.Kind, c.Threshold, time.Since(tth).Round(time.Millisecond)), c, nil)
+		} else if tth.IsZero() {
+			r.Inconclusive(fmt.Sprintf("health history %s did not reach %d consecutive failures in time (%d replies)", c.Script, c.Threshold, len(evs)))
+		}
+	}
+	for _, ex := range core.CrashMarkers(agent.LogPath) {
+		r.Violate(core.CrashSignature(ex), "agent crashed: "+ex, c, nil)
+	}
+	r.Sample(map[string]interface{}{"case": c, "health_replies": len(evs), "exited": !exitAt.IsZero()})
+}
+
+type c20ShutCase struct {
+	Name    string `json:"name"`
+	Signal  string `json:"signal"`
+	GraceS  int    `json:"grace_s"` // 0 = option off
+	Phase   string `json:"phase"`   // at-backend | uploading | idle
+	Finish  string `json:"finish"`  // inside | outside
+	FinishS float64
+}
+
+var c20BeginRe = regexp.MustCompile(`Begin graceful shutdown`)
+
+// c20Shutdown runs one shutdown scenario. Returns false if the "inside"
+// response was missing (caller confirms by a solo re-run).
+func c20Shutdown(r *core.Run, agentBin string, md *fakes.Metadata, c c20ShutCase, confirm bool) (insideOK bool) {
+	insideOK = true
+	release := make(chan struct{})
+	var relOnce sync.Once
+	atBackend := make(chan struct{}, 1)
+	backend, err := rawhttp.NewServer(func(req *rawhttp.Message, reqErr error, conn net.Conn, br *bufio.Reader) bool {
+		if reqErr != nil {
+			return false
+		}
+		tok, size, _, ok := parseTokPath(req.Target)
+		if !ok {
+			var w rawhttp.Builder
+			w.Line("HTTP/1.1 200 OK").Field("Content-Length", "2").End()
+			w.WriteString("ok")
+			conn.Write(w.Bytes())
+			return true
+		}
+		select {
+		case atBackend <- struct{}{}:
+		default:
+		}
+		if c.Phase == "at-backend" {
+			<-release
+		}
+		tr := tokResponseFor(tok, size)
+		var w rawhttp.Builder
+		w.Line(fmt.Sprintf("HTTP/1.1 %d X", tr.Status)).Fields(tr.Fields).Field("Trailer", "X-Tok-Trailer").Field("Transfer-Encoding", "chunked").End()
+		w.Chunk(tr.Body[:len(tr.Body)/2])
+		conn.Write(w.Bytes())
+		if c.Phase == "uploading" {
+			<-release // first half is on its way to the proxy; hold the rest
+		}
+		var w2 rawhttp.Builder
+		w2.Chunk(tr.Body[len(tr.Body)/2:]).LastChunk(tr.Trailer)
+		conn.Write(w2.Bytes())
+		return true
+	})
+	if err != nil {
+		r.Broken(err.Error())
+		return
+	}
+	defer backend.Close()
+	defer relOnce.Do(func() { close(release) })
+	px, err := fakes.NewProxy()
+	if err != nil {
+		r.Broken(err.Error())
+		return
+	}
+	defer px.Close()
+	// list calls are long polls held by the harness
+	var mu sync.Mutex
+	type listCall struct {
+		arrived time.Time
+		rel     chan []byte
+	}
+	var lists []*listCall
+	px.OnList = func(w http.ResponseWriter, req *http.Request) bool {
+		lc := &listCall{arrived: time.Now(), rel: make(chan []byte, 1)}
+		mu.Lock()
+		lists = append(lists, lc)
+		mu.Unlock()
+		select {
+		case b := <-lc.rel:
+			w.WriteHeader(200)
+			w.Write(b)
+		case <-time.After(25 * time.Second):
+			w.WriteHeader(200)
+			w.Write([]byte("[]"))
+		case <-req.Context().Done():
+		}
+		return true
+	}
+	args := []string{}
+	if c.GraceS > 0 {
+		args = append(args, fmt.Sprintf("--graceful-shutdown-timeout=%ds", c.GraceS))
+	}
+	agent, err := startAgent(r, agentBin, "agent-"+c.Name, md, px.URL(), backend.Addr(), "b20-"+c.Name, args...)
+	if err != nil {
+		r.Broken(err.Error())
+		return
+	}
+	defer agent.Kill()
+	waitList := func(n int, d time.Duration) *listCall {
+		deadline := time.Now().Add(d)
+		for time.Now().Before(deadline) {
+			mu.Lock()
+			if len(lists) >= n {
+				lc := lists[n-1]
+				mu.Unlock()
+				return lc
+			}
+			mu.Unlock()
+			time.Sleep(2 * time.Millisecond)
+		}
+		return nil
+	}
+	l1 := waitList(1, 30*time.Second)
+	if l1 == nil {
+		r.Inconclusive("shutdown scenario " + c.Name + ": agent never polled")
+		return
+	}
+	tok := "sd" + c.Name
+	if c.Phase != "idle" {
+		px.Store(tok, tokRequest("GET", tok, 4000, 0, "c20.example", nil, nil), "")
+		l1.rel <- []byte(fmt.Sprintf("[%q]", tok))
+		select {
+		case <-atBackend:
+		case <-time.After(20 * time.Second):
+			r.Inconclusive("shutdown scenario " + c.Name + ": request never reached the backend")
+			return
+		}
+		if c.Phase == "uploading" {
+			time.Sleep(50 * time.Millisecond)
+		}
+	}
+	// exactly one list call must be outstanding when the signal is sent
+	n0 := 1
+	if c.Phase != "idle" {
+		n0 = 2
+	}
+	held := waitList(n0, 20*time.Second)
+	if held == nil {
+		r.Inconclusive("shutdown scenario " + c.Name + ": no list call outstanding before the signal")
+		return
+	}
+	sig := syscall.SIGINT
+	if c.Signal == "TERM" {
+		sig = syscall.SIGTERM
+	}
+	tSig := time.Now()
+	agent.Signal(sig)
+	if c.Phase != "idle" {
+		go func() {
+			time.Sleep(time.Duration(c.FinishS * float64(time.Second)))
+			relOnce.Do(func() { close(release) })
+		}()
+	}
+	cls := fmt.Sprintf("shutdown|%s|grace=%d|%s|%s", c.Signal, c.GraceS, c.Phase, c.Finish)
+	if !confirm {
+		r.Case(cls)
+	}
+	if c.GraceS == 0 {
+		select {
+		case <-agent.Done():
+			r.Max("max_exit_latency_ms_without_grace", int(time.Since(tSig).Milliseconds()))
+		case <-time.After(10 * time.Second):
+			r.Violate("C20:no-prompt-exit-without-grace:"+c.Signal, fmt.Sprintf("scenario %s: without a graceful-shutdown period the agent was still running 10s after SIG%s", c.Name, c.Signal), c, nil)
+		}
+		return
+	}
+	// wait for the agent to announce the shutdown, then release the held list call
+	if _, err := agent.WaitLog(c20BeginRe, 10*time.Second); err != nil {
+		if !agent.Alive() {
+			r.Violate("C20:exited-before-grace-period:"+c.Signal, fmt.Sprintf("scenario %s: the agent exited %v after SIG%s although a %ds graceful-shutdown period is configured", c.Name, time.Since(tSig).Round(time.Millisecond), c.Signal, c.GraceS), c, nil)
+		} else {
+			r.Violate("C20:signal-ignored:"+c.Signal, fmt.Sprintf("scenario %s: no graceful shutdown began within 10s of SIG%s", c.Name, c.Signal), c, nil)
+		}
+		return
+	}
+	mu.Lock()
+	nAtAnnounce := len(lists)
+	mu.Unlock()
+	held.rel <- []byte("[]")
+	tRel := time.Now()
+	// process exit timing
+	grace := time.Duration(c.GraceS) * time.Second
+	var exitAt time.Time
+	select {
+	case <-agent.Done():
+		exitAt = time.Now()
+	case <-time.After(grace + 10*time.Second - time.Since(tSig)):
+	}
+	if exitAt.IsZero() {
+		r.Violate("C20:no-exit-after-grace-period", fmt.Sprintf("scenario %s: still running %v after SIG%s with a %ds period", c.Name, time.Since(tSig).Round(time.Millisecond), c.Signal, c.GraceS), c, nil)
+	} else if exitAt.Sub(tSig) < grace-50*time.Millisecond {
+		r.Violate("C20:exited-before-grace-period:"+c.Signal, fmt.Sprintf("scenario %s: exited %v after SIG%s, before the %ds period ended", c.Name, exitAt.Sub(tSig).Round(time.Millisecond), c.Signal, c.GraceS), c, nil)
+	} else {
+		r.Max("max_exit_overshoot_ms", int((exitAt.Sub(tSig) - grace).Milliseconds()))
+	}
+	// no new list call after the in-flight one returned
+	mu.Lock()
+	var late []time.Duration
+	for i, lc := range lists {
+		if i >= nAtAnnounce && lc.arrived.After(tRel) {
+			late = append(late, lc.arrived.Sub(tRel))
+		}
+	}
+	extraBefore := nAtAnnounce - n0
+	mu.Unlock()
+	if len(late) > 0 {
+		r.Violate("C20:polled-after-shutdown-began", fmt.Sprintf("scenario %s: %d pending-list call(s) started after the shutdown was announced and the in-flight call had returned (first %v after)", c.Name, len(late), late[0].Round(time.Millisecond)), c, nil)
+	}
+	_ = extraBefore
+	// the forwarded request must be answered in full when the backend finished inside the period
+	if c.Phase != "idle" && c.Finish == "inside" {
+		ups := px.Uploads(tok)
+		ok := false
+		var why string
+		if len(ups) == 0 {
+			why = "no response upload reached the proxy"
+		} else {
+			u := ups[len(ups)-1]
+			if u.Resp == nil || u.Err != "" {
+				why = "upload incomplete: " + u.Err
+			} else if bad := checkTokResponse(u.Resp, "GET", tok, 4000); len(bad) > 0 {
+				why = fmt.Sprint(bad)
+			} else {
+				ok = true
+			}
+		}
+		if !ok {
+			insideOK = false
+			if confirm {
+				r.Violate("C20:in-flight-request-not-answered:"+c.Phase, fmt.Sprintf("scenario %s: backend finished %.1fs after SIG%s, inside the %ds period, but %s (confirmed alone)", c.Name, c.FinishS, c.Signal, c.GraceS, why), c, nil)
+			}
+		} else {
+			r.Add("in_flight_requests_answered_during_shutdown", 1)
+		}
+	}
+	for _, ex := range core.CrashMarkers(agent.LogPath) {
+		r.Violate(core.CrashSignature(ex), "agent crashed: "+ex, c, nil)
+	}
+	if !confirm {
+		r.Sample(map[string]interface{}{"case": c, "exit_after_ms": exitAt.Sub(tSig).Milliseconds(), "list_calls": len(lists)})
+	}
+	return
+}
+
+// C20 — agent lifecycle.
 func C20(r *core.Run) {
-	r.Broken("check not implemented yet")
-	r.Finish(1)
+	r.SetRule("real agent binary; health histories at 1 s interval F^k P (late backend), P (F^(t-1) P)^m F^t for thresholds t in 1..3 and failure kinds {non-200, connection closed}, ordering oracles on one clock (no proxy request before the first passing reply was sent; no exit with fewer than t trailing failures; exit within 10 s of the t-th); shutdown scenarios signal {INT,TERM} x grace {off,2s,5s} x phase of one in-flight request {idle, at backend, uploading} (phases held by the harness) x backend finishing inside/outside the period; class = scenario tuple")
+	r.Assume("progress bound T=10s; 'inside' means the backend finishes 1 s after the signal with >= 1 s of the period left, a miss is confirmed by a solo re-run; phases before the request reaches the backend are outside the statement")
+	agentBin := r.MustBuild(r.BuildRepoBinary("./agent", "agent"))
+	md, err := fakes.NewMetadata()
+	if err != nil {
+		r.Broken(err.Error())
+		r.Finish(1)
+	}
+	defer md.Close()
+	var hcs []c20HealthCase
+	var scs []c20ShutCase
+	add := func(t int, kind, script string) {
+		hcs = append(hcs, c20HealthCase{Name: fmt.Sprintf("h%d", len(hcs)), Threshold: t, Kind: kind, Script: script})
+	}
+	if r.Quick() {
+		add(1, "non200", "FFP")
+		add(2, "closed", "PFPFP")
+		add(3, "non200", "FPFFPFFP")
+		add(2, "non200", "P")
+	} else {
+		for t := 1; t <= 3; t++ {
+			for _, kind := range []string{"non200", "closed"} {
+				for k := 0; k <= 3; k++ {
+					add(t, kind, strings.Repeat("F", k)+"P")
+				}
+				for m := 1; m <= 3; m++ {
+					add(t, kind, "P"+strings.Repeat(strings.Repeat("F", t-1)+"P", m))
+					add(t, kind, strings.Repeat("F", m)+"P"+strings.Repeat(strings.Repeat("F", t-1)+"P", m))
+				}
+			}
+		}
+	}
+	for _, sig := range []string{"INT", "TERM"} {
+		for _, g := range []int{0, 2, 5} {
+			for _, ph := range []string{"idle", "at-backend", "uploading"} {
+				for _, fin := range []string{"inside", "outside"} {
+					if ph == "idle" && fin == "outside" {
+						continue
+					}
+					if g == 0 && fin == "outside" {
+						continue
+					}
+					c := c20ShutCase{Signal: sig, GraceS: g, Phase: ph, Finish: fin, FinishS: 1}
+					if fin == "outside" {
+						c.FinishS = float64(g) + 2
+					}
+					if r.Quick() && !(sig == "INT" && g == 2 || sig == "TERM" && (g == 0 && ph != "uploading" || g == 2 && ph == "at-backend" && fin == "inside")) {
+						continue
+					}
+					c.Name = fmt.Sprintf("s%d", len(scs))
+					scs = append(scs, c)
+				}
+			}
+		}
+	}
+	if !r.Quick() {
+		// repetitions of the schedule-sensitive scenarios
+		base := append([]c20ShutCase(nil), scs...)
+		for rep := 0; rep < 2; rep++ {
+			for _, c := range base {
+				if c.GraceS > 0 {
+					c.Name = fmt.Sprintf("s%d", len(scs))
+					scs = append(scs, c)
+				}
+			}
+		}
+	}
+	sem := make(chan struct{}, 16)
+	var wg sync.WaitGroup
+	var mu sync.Mutex
+	var redo []c20ShutCase
+	for _, c := range hcs {
+		sem <- struct{}{}
+		wg.Add(1)
+		go func(c c20HealthCase) {
+			defer wg.Done()
+			defer func() { <-sem }()
+			c20Health(r, agentBin, md, c)
+		}(c)
+	}
+	for _, c := range scs {
+		sem <- struct{}{}
+		wg.Add(1)
+		go func(c c20ShutCase) {
+			defer wg.Done()
+			defer func() { <-sem }()
+			if !c20Shutdown(r, agentBin, md, c, false) {
+				mu.Lock()
+				redo = append(redo, c)
+				mu.Unlock()
+			}
+		}(c)
+	}
+	wg.Wait()
+	for _, c := range redo {
+		c.Name += "solo"
+		if c20Shutdown(r, agentBin, md, c, true) {
+			r.Inconclusive("shutdown scenario " + c.Name + " lost the in-flight response once but not when re-run alone")
+		}
+	}
+	r.Set("health_histories", len(hcs))
+	r.Set("shutdown_scenarios", len(scs))
+	r.JudgeRaces(core.ParseRaceLogs(filepath.Join(r.WorkDir, "race-")))
+	r.Finish(r.Pick(8, 100))
 }
